@@ -1615,3 +1615,33 @@ Proof.
         -- left. exact Hin.
     + right. exists (h :: pre), h', post. split; [rewrite Eq; reflexivity|]. exact Hd.
 Qed.
+
+(* issuance: the asset lookup is by the EXACT denom (params.go GetAsset compares asset.Denom == denom;
+   coin denoms are case sensitive, so "usdtoken" and "USDTOKEN" are two denoms).  Two assets with
+   different denoms have independent owners: each lookup returns the asset of the denom asked for,
+   the owner of one asset has no right on the other (unless it owns both), the owner of the other
+   one is its principal, and a change of one owner leaves the other asset as it is. *)
+Theorem issuance_owner_is_per_denom : forall e s d d' x y,
+  find_asset s d = Some x -> find_asset s d' = Some y -> d <> d' ->
+  as_denom x = d /\ as_denom y = d' /\
+  (as_owner x <> as_owner y ->
+   (forall amt rcv, step e s (Issue (as_owner x) d' amt rcv) = Err) /\
+   (forall amt, step e s (Redeem (as_owner x) d' amt) = Err) /\
+   (forall c, step e s (Block (as_owner x) d' c) = Err) /\
+   (forall c, step e s (Unblock (as_owner x) d' c) = Err) /\
+   (forall st, step e s (SetPause (as_owner x) d' st) = Err)) /\
+  (forall amt rcv st c,
+     authorised e s (Issue (as_owner y) d' amt rcv) = true /\ authorised e s (Redeem (as_owner y) d' amt) = true /\
+     authorised e s (Block (as_owner y) d' c) = true /\ authorised e s (Unblock (as_owner y) d' c) = true /\
+     authorised e s (SetPause (as_owner y) d' st) = true) /\
+  (forall a s' out, admin_step e s (SetOwner d a) = Ok s' out -> find_asset s' d' = Some y).
+Proof.
+  intros e s d d' x y Fx Fy Hn.
+  split; [exact (find_asset_denom _ _ _ Fx)|]. split; [exact (find_asset_denom _ _ _ Fy)|].
+  split; [|split].
+  - intros Ho. apply issuance_requires_owner. intros z Fz. rewrite Fy in Fz. injection Fz as <-. exact Ho.
+  - intros amt rcv st c. cbn [authorised]. rewrite Fy, Nat.eqb_refl. repeat split; reflexivity.
+  - intros a s' out H. cbn [admin_step] in H.
+    destruct (set_owner_lookup _ _ _ _ _ _ H Fx) as [_ Ho]. rewrite (Ho d'); [exact Fy|].
+    intros E. apply Hn. symmetry. exact E.
+Qed.
